@@ -1,6 +1,6 @@
 (* C07 — transfer-function estimates recover gain and phase with the right sign (statements only) *)
 From Coq Require Import ZArith List Bool Reals.
-From SK Require Import Arith Cpx KernelPrims Kernels KernelThms KernelThms2 GenRef AttrThms AttrThms3 KernelLin.
+From SK Require Import Arith Cpx KernelPrims Kernels KernelThms KernelThms2 GenRef AttrThms AttrThms3 KernelLin DetrendPoly Sinusoid.
 From SK.gen Require Import AttrsGen KernelsGen.
 Import ListNotations.
 Close Scope Z_scope.
@@ -45,6 +45,15 @@ Proof.
   - rewrite Gen_win_only_csd_ref, ref_csd_is_definition, np_csd_is_definition. reflexivity.
 Qed.
 End C07.
+(* a sinusoid delayed by th = w0*d radians, seen through any window with no leakage from the image (W(2 w0) = 0):
+   per segment X conj(Y) = |X|^2 e^{+i th} — the premise of C07_delay_gives_negative_phase, so Hxy = e^{-i th} *)
+Theorem C07_delayed_sinusoid : forall (win : nat -> R) (A w0 phi th : R) (L : Z),
+  C2 win w0 phi L = 0%R -> S2 win w0 phi L = 0%R -> C2 win w0 (phi - th)%R L = 0%R -> S2 win w0 (phi - th)%R L = 0%R ->
+  let X := dft_def w0 (sig win A w0 phi) L in let Y := dft_def w0 (sig win A w0 (phi - th)%R) L in
+  let P := (fst X * fst X + snd X * snd X)%R in
+  pw_csd RA X Y = (P, P, (P * cos th)%R, (P * sin th)%R).
+Proof. exact delayed_sinusoid_cross. Qed.
+Print Assumptions C07_delayed_sinusoid.
 Print Assumptions C07_gain_recovered.
 Print Assumptions C07_gain_statistics_poly.
 Print Assumptions C07_backends_agree_on_sign.
